@@ -44,9 +44,16 @@ def _build(d, maxlen):
         # repeated substring by construction
         part = _text(d, 3) or 'ab'
         s = part + _text(d, 2) + part
+    if d.chance(1, 25):
+        # long texts: around 255 characters and around the 32767 cell limit
+        n = d.choice([254, 255, 256, 300, 1000, 32766, 32767])
+        s = (s or 'ab') * (n // max(1, len(s or 'ab')) + 1)
+        s = s[:n]
     L = len(s)
 
     def pos():
+        if L > 100 and d.pick(2):
+            return d.choice([L - 1, L, L + 1, 255, 256, L // 2])
         return d.int(-2, L + 3)
     if d.chance(1, 12):
         s = d.choice([12345, 7, 100, 1212, -45])
